@@ -481,6 +481,15 @@ def table_contracts():
         else:
             out.append(FunctionContract(f"C10.table[copysign/d2,{flag}]", tgt, cparams, ensures=[("derivative", lambda i, func, pars, allowed_nonsmoothness, result: result == 0)],
                                         setup=table_setup(2), arithmetic=True, property_id="C10"))
+    # a one-argument table function called with another number of arguments (math.log(x, base), math.sin()) is not the tabulated
+    # function: its derivative is not in the table, so it is refused like an unknown function -- never differentiated as if unary
+    for name in list(TABLE_SPEC) + ["log", "fabs"]:
+        for npars, idx in ((2, 0), (2, 1), (3, 1)):
+            out.append(FunctionContract(f"C10.table[{name}/arity{npars}/d{idx + 1},discontinuous]", tgt,
+                                        [("i", f"const:{idx}"), ("func", f"const:__import__('pymbolic').primitives.Lookup(__import__('pymbolic').primitives.Variable('math'), {name!r})"),
+                                         ("pars", "v"), ("allowed_nonsmoothness", "const:'discontinuous'")],
+                                        raises=[("refused", lambda i, func, pars, allowed_nonsmoothness: True, RuntimeError)], setup=table_setup(npars), arithmetic=True,
+                                        property_id="C10"))
     # unknown functions are refused
     for flag in FLAGS:
         out.append(FunctionContract(f"C10.table[unknown,{flag}]", tgt,
